@@ -5,14 +5,21 @@ from props import PROPS, budget
 def c16_gen(rng, tier):
     out = []
     n = 0
-    reps = budget(tier, 2, 12)
+    reps = budget(tier, 4, 24)
     for rep in range(reps):
         for udp in ("plain", "tc", "silent", "garbage"):
             for tcp in ("reply", "close", "silent", "garbage"):
                 name = gens.rand_name(rng)
+                if rng.random() < 0.4:
+                    # a long name: the query is 256 octets or more (two-octet TCP length prefix with a non-zero high octet)
+                    rl = lambda k: bytes(rng.choice(b"abcdefghijklmnopqrstuvwxyz0123456789") for _ in range(k))
+                    target = rng.choice([238, 239, 240, 250, 254])          # query = 12 + name + 1 + 4: 255 / 256 / 257 / 267 / 271
+                    name = gens.raw_name([rl(63), rl(63), rl(63), rl(target - 192 - 1)])
+                    assert len(name) == target
                 typ = rng.choice([1, 28, 15, 16, 33, 255, rng.randrange(1, 65536)])
                 dl = 350 if (udp in ("silent", "garbage") or tcp == "silent") else 1500
-                out.append("f%d udp=%s tcp=%s name=%s type=%d dl=%d" % (n, udp, tcp, gens.hx(name), typ, dl))
+                da = 1 if rng.random() < 0.4 else 0
+                out.append("f%d udp=%s tcp=%s name=%s type=%d dl=%d da=%d" % (n, udp, tcp, gens.hx(name), typ, dl, da))
                 n += 1
     return out
 
